@@ -166,9 +166,13 @@ CrashDiff(e) ==
 \* F25 seen through this relation: in the restarted (or the reference) build a step was executed twice
 \* concurrently after its creator re-defined it while its job was in flight; the second completion finds
 \* the output already BUILT (ConsistencyError), so the outcome of that build is not the reference's
+\* (and F17: whether a build fails on a step moved between plans depends on the schedule, so the
+\* restarted build and the reference may disagree about it)
 CrashEquiv(e) ==
   IF e.info.double_exec # <<>>
   THEN {<<c[1], c[2], "F25-double-execution-in-restarted-build">> : c \in CrashDiff(e)}
+  ELSE IF (RcClass(e.a.rc) = "failed" /\ StaleDefinerConflict(e.a)) \/ (RcClass(e.b.rc) = "failed" /\ StaleDefinerConflict(e.b))
+  THEN {<<c[1], c[2], "F17-step-moved-between-plans-crash-vs-reference">> : c \in CrashDiff(e)}
   ELSE CrashDiff(e)
 
 \* F17 seen through this relation: when a plan edit moves a step between plans, whether the build
